@@ -68,6 +68,13 @@ CHECKS = {
              "followed by queries of every text, are validated step by step by TLC: every result equals the fresh parser's; every returned list is a new object.",
         technique="TLA+ object-level model of parser caches; TLC exhaustive + necessity variants; TLC trace validation of call histories",
         ref="5/C12"),
+    "C13": dict(
+        text="Parser trees, rewrite-step results (repeated node ids), every constructor-built shape up to the bound (mixed kinds, all-equal kinds/ids/constants, one-operand "
+             "nodes with the operand on either side, plain nodes) are cloned with clone() and from every node with clone_from_root in three call forms; then either side is "
+             "mutated (payload, re-link, rotate). Heaps over one object universe are validated by TLC (TraceClone): isomorphism with equal kinds, exact constant values, names, "
+             "ids, operand sides; no shared object; original untouched; equal print/evaluation; returned node at the same path inside a complete clone; the other tree unchanged after mutation.",
+        technique="TLA+ heap isomorphism/independence contract; TLC trace validation of clone, clone_from_root and post-clone mutations",
+        ref="5/C13"),
     "C14": dict(
         text="TLC explores every binary-tree shape up to the bound (Heap.tla/MC_Heap) and checks the specification's pre/in/post orders "
              "(permutation, true depth, defining in-order property); every shape is then built from the real node classes, all three visits "
